@@ -94,6 +94,9 @@ let parse_op t : op = match next t with
   | "rawentry" -> let s = num t in let var = num t in let k = num t in
     let n = inum t in ORawEntry (s, var, k, rep n (fun () -> parse_step t))
   | "rawget" -> let s = num t in let var = num t in ORawGet (s, var, num t)
+  | "pariter" -> let s = num t in let var = num t in let d = num t in OParIter (s, var, d, nlist t)
+  | "parextend" -> let s = num t in let nch = inum t in
+    OParExtend (s, rep nch (fun () -> tlist t))
   | "setalg" -> let k = num t in let a = num t in OSetAlg (k, a, num t)
   | "setpred" -> let k = num t in let a = num t in OSetPred (k, a, num t)
   | s -> raise (Parse ("op " ^ s))
@@ -138,9 +141,9 @@ let norm_numlist (toks : string list) = toks
 type record = {
   mutable op : string list; mutable perm : n list; mutable qperm : n list; mutable fuse : n option;
   mutable result : string; mutable states : (n * string) list; mutable logd : string option;
-  mutable dumps : (n * string) list; mutable line : int; mutable skipk : bool;
+  mutable dumps : (n * string) list; mutable line : int; mutable skipk : bool; mutable skips : bool;
 }
-let fresh () = { op = []; perm = []; qperm = []; fuse = None; result = ""; states = []; logd = None; dumps = []; line = 0; skipk = false }
+let fresh () = { op = []; perm = []; qperm = []; fuse = None; result = ""; states = []; logd = None; dumps = []; line = 0; skipk = false; skips = false }
 
 let verbose = ref false
 let aspects = ref "RSHAKD"   (* Result State Hashes Allocs/frees Kept-ledger(drops) Dumps *)
@@ -166,6 +169,14 @@ let str_dump m =
   let (a, b) = dump m in
   join (List.filter (fun s -> s <> "") [string_of_int (List.length a); str_triples a; string_of_int (List.length b); str_triples b])
 
+(* contents regardless of which table holds what: all elements, sorted by key *)
+let flat_dump (d : string) =
+  let t = { l = split d } in
+  let na = inum t in let a = rep na (fun () -> let k = next t in let kid = next t in let v = next t in (k, kid, v)) in
+  let nb = inum t in let b = rep nb (fun () -> let k = next t in let kid = next t in let v = next t in (k, kid, v)) in
+  let all = List.sort (fun (k1, _, _) (k2, _, _) -> compare (int_of_string k1) (int_of_string k2)) (a @ b) in
+  join (string_of_int (List.length all) :: List.concat_map (fun (k, kid, v) -> [k; kid; v]) all)
+
 let gl_of_state (s : string) = match split s with
   | ml :: mc :: _ -> (try Some (int_of_string mc - int_of_string ml) with _ -> None)
   | _ -> None
@@ -186,7 +197,7 @@ let attempt cfg w (r : record) op (on, tomb) : (world * out) option * string opt
              (match o with OutP p -> " (" ^ panic_detail p ^ ")" | _ -> "") r.result);
     List.iter (fun (slot, obs) ->
         let ms = match slot_of w' slot with None -> "gone" | Some m -> str_summary m in
-        if asp 'S' && ms <> obs then set (Printf.sprintf "state of slot %s: model=[%s] impl=[%s]" (string_of_n slot) ms obs)) r.states;
+        if asp 'S' && not r.skips && ms <> obs then set (Printf.sprintf "state of slot %s: model=[%s] impl=[%s]" (string_of_n slot) ms obs)) r.states;
     (match r.logd with
      | None -> ()
      | Some obs ->
@@ -201,6 +212,7 @@ let attempt cfg w (r : record) op (on, tomb) : (world * out) option * string opt
        if ml <> ol then set (Printf.sprintf "counters (hashes allocs frees dropped-keys dropped-values): model=[%s] impl=[%s]" ml ol));
     List.iter (fun (slot, obs) ->
         let ms = match slot_of w' slot with None -> "gone" | Some m -> str_dump m in
+        let (ms, obs) = if r.skips && ms <> "gone" then (flat_dump ms, flat_dump obs) else (ms, obs) in
         if asp 'D' && ms <> obs then set (Printf.sprintf "contents of slot %s: model=[%s] impl=[%s]" (string_of_n slot) ms obs)) r.dumps;
     (Some (w', o), !diff)
 
@@ -271,6 +283,7 @@ let () =
         | slot :: rest -> !cur.states <- !cur.states @ [(n_of_string slot, join rest)]
         | [] -> ())
     | 'X' -> !cur.skipk <- true
+    | 'Y' -> !cur.skips <- true
     | 'L' -> !cur.logd <- Some (join (split body))
     | 'D' -> (match split body with
         | slot :: rest -> !cur.dumps <- !cur.dumps @ [(n_of_string slot, join rest)]
